@@ -52,7 +52,13 @@ def evaluate(eng, prop, cases, impl, model, spec):
     findings = []
     for c, ir, mr, sr in zip(cases, impl, model, spec):
         n_ops = len(c.lines) - 1
-        j = eng.judge(prop, c, ir, sr) if hasattr(eng, "judge") else None
+        if hasattr(eng, "judge"):
+            try:
+                j = eng.judge(prop, c, ir, sr, mr)
+            except TypeError:
+                j = eng.judge(prop, c, ir, sr)
+        else:
+            j = None
         if j is None and sr is not None:
             jd = core.first_diff(ir, sr, proj)
             if jd is not None:
